@@ -28,7 +28,7 @@ CLAIMED = {
   "DESIGN.md §3 C14"),
  "C19": ("model_checking",
   "TLA+ spec SharedRuntime.tla (label-index protocol model-checked exhaustively; shared value as an object with immutable abstract state); TLC -simulate call/return schedules executed under the race detector and the recorded histories validated by TLC (SharedRuntimeTrace.tla)",
-  "The label index double-check protocol (RLock read, Lock re-read, append) is model-checked for 3 goroutines x 2 keys (injective, inverse map, append-only, own index, termination). TLC -simulate generates call/return interleavings (program, evaluated or not, 2-8 goroutines, 40 calls over 16 methods); each is executed in a child built with -race on one shared value or one context per goroutine; the history (every return digest, sequential baseline from a fresh context, answers recomputed afterwards, label-index pairs) is validated by TLC: every return equals the sequential answer, the value is unchanged, the label index is one injective map. A race-detector report, panic or hang of the child is a violation.",
+  "The label index double-check protocol (RLock read, Lock re-read, append) is model-checked for 3 goroutines x 2 keys (injective, inverse map, append-only, own index, termination). TLC -simulate generates call/return interleavings (program, evaluated or not, 2-8 goroutines, 40 calls over 19 methods (incl. FillPath and Encode of Go containers that hold the shared value)); each is executed in a child built with -race on one shared value or one context per goroutine; the history (every return digest, sequential baseline from a fresh context, answers recomputed afterwards, label-index pairs) is validated by TLC: every return equals the sequential answer, the value is unchanged, the label index is one injective map. A race-detector report, panic or hang of the child is a violation.",
   "trusted: TLC, Go race detector, digests of method results; goroutine interleavings inside overlapping calls are sampled, not enumerated; canaries (wrong answer, changed value) must be rejected",
   "DESIGN.md §3 C19"),
  "C17": ("model_checking",
